@@ -237,6 +237,13 @@ def wrappers(iface):
             resp = next_call(request)
             resp.set_cookie("mw", "1")
             return resp
+
+        @mod.middleware
+        def X(request, next_call):
+            resp = next_call(request)
+            resp.delete_cookie("old")
+            resp.headers["x-after"] = "1"
+            return resp
     else:
         @mod.middleware
         async def M(request, next_call):
@@ -257,7 +264,14 @@ def wrappers(iface):
             resp = await next_call(request)
             resp.set_cookie("mw", "1")
             return resp
-    return {"M": M, "E": E, "D": D, "C": C}
+
+        @mod.middleware
+        async def X(request, next_call):
+            resp = await next_call(request)
+            resp.delete_cookie("old")
+            resp.headers["x-after"] = "1"
+            return resp
+    return {"M": M, "E": E, "D": D, "C": C, "X": X}
 
 
 def build(iface, name, stack, tmpfile):
